@@ -247,7 +247,7 @@ class bit_vector {
 
         // Sentinel
         if (num_words % block_size != 0) {
-            rank_hints.push_back(curr_ranks_in_block);
+            rank_hints.push_back(curr_num_ones);
             rank_hints.push_back(0);
         }
 
